@@ -272,8 +272,9 @@ class ProblemKind(up.AnyBaseClass, metaclass=ProblemKindMeta):
             self._features, oth._features, self.version, oth.version
         )
         valid_version_features = get_valid_features(version)
-        self_feat.intersection_update(valid_version_features)
-        oth_feat.intersection_update(valid_version_features)
+        # (not intersection_update: these may be the operands' own feature sets)
+        self_feat = self_feat.intersection(valid_version_features)
+        oth_feat = oth_feat.intersection(valid_version_features)
         return self_feat.issubset(oth_feat)
 
     def clone(self) -> "ProblemKind":
